@@ -1308,6 +1308,12 @@ fn exec_t<T: Fam>(w: &[&str], out: &mut Out) -> String {
                 panic!("harness bug: {} on {}", msg, op);
             }
             out.fail("C17:no-panic", T::ID, format!("{} panicked: {}", op, msg));
+            // C19: no received template value - whatever its reference, version, metrics - makes the decoding
+            // of a user template type panic (`from` / `upd` / `updf` are the decode paths)
+            if matches!(w[1], "from" | "upd" | "updf") {
+                let ver = if T::template_version().is_some() { "versioned" } else { "unversioned" };
+                out.fail("C19:no-panic", &format!("derive:{}:{}:{}", w[1], T::ID, ver), format!("{} panicked: {}", op, msg));
+            }
             "panic".into()
         }
     }
@@ -1754,11 +1760,76 @@ fn mutation_matrix<T: Fam>(ctx: &mut Ctx, out: &mut Out, rng: &mut Rng) {
             emit(ctx, out, &i, true);
         }
     }
+    // hostile references (C19): received strings cut / compared against the expected `name[:version]`, top level
+    // and inside every nested template value
+    let hostile = hostile_refs(&base.template_ref);
+    for r in &hostile {
+        if *r != base.template_ref {
+            let mut i = clone_inst(&base);
+            i.template_ref = r.clone();
+            emit(ctx, out, &i, true);
+            out.count("matrix:hostile-ref");
+        }
+    }
+    for k in 0..base.metrics.len() {
+        let inner = match &base.metrics[k].value {
+            Some(metric::Value::TemplateValue(t)) => t.template_ref.clone(),
+            _ => None,
+        };
+        if let Some(inner) = inner {
+            for r in hostile_refs(&inner) {
+                let mut i = clone_inst(&base);
+                if let Some(metric::Value::TemplateValue(t)) = &mut i.metrics[k].value {
+                    t.template_ref = Some(r.clone());
+                }
+                // a nested reference equal to the expected one is no foreign instance
+                emit(ctx, out, &i, r != inner);
+                out.count("matrix:hostile-nested-ref");
+            }
+        }
+    }
     // empty instance
     emit(ctx, out, &TemplateInstance { template_ref: base.template_ref.clone(), version: base.version.clone(), metrics: vec![], parameters: vec![] }, false);
     out.nontrivial();
     out.count("matrix:single-mutation");
     out.count(&format!("struct:{}", T::ID));
+}
+
+/// references a hostile sender can put where `expected` (= `name` or `name:version`) belongs: empty, every proper
+/// prefix, a multi-byte character (2, 3, 4 bytes) inserted at / replacing the character at every offset (so that it
+/// straddles any byte offset the decoder may cut at), the name alone, other versions, separators only, very long
+fn hostile_refs(expected: &str) -> Vec<String> {
+    let mut v: Vec<String> = vec![String::new()];
+    let chars: Vec<char> = expected.chars().collect();
+    for k in 1..chars.len() {
+        v.push(chars[..k].iter().collect());
+    }
+    for k in 0..=chars.len() {
+        for c in ['ö', '日', '😀'] {
+            let mut ins: Vec<char> = chars.clone();
+            ins.insert(k, c);
+            v.push(ins.iter().collect());
+            if k < chars.len() {
+                let mut rep = chars.clone();
+                rep[k] = c;
+                v.push(rep.iter().collect());
+                // cut right behind the multi-byte character
+                v.push(rep[..=k].iter().collect());
+            }
+        }
+    }
+    let name = expected.split(':').next().unwrap_or("").to_string();
+    v.push(name.clone());
+    v.push(format!("{}:", name));
+    v.push(format!("{}:other", name));
+    v.push(format!("{}::", expected));
+    v.push(":".into());
+    v.push(format!(":{}", expected));
+    v.push("x".repeat(5000));
+    v.push(format!("{}{}", expected, "é".repeat(2000)));
+    v.sort();
+    v.dedup();
+    v
 }
 
 /// all values of a type given per-field value lists
@@ -2063,7 +2134,7 @@ pub fn run(args: &Args, out: &mut Out) -> &'static str {
         let mut r = rng.fork();
         dispatch!(id, token_case, &mut ctx, out, &mut r, th);
     }
-    out.exhaustive.push("per struct: every position of the full instance x {drop, absent name, 6 unknown names, 12 metric / 8 parameter value variants, duplicate}, 5 foreign references, 7 foreign versions".into());
+    out.exhaustive.push("per struct: every position of the full instance x {drop, absent name, 6 unknown names, 12 metric / 8 parameter value variants, duplicate}, 5 foreign references, 7 foreign versions; hostile references at the top level and in every nested template value (empty, every proper prefix of the expected `name[:version]`, a 2- / 3- / 4-byte character inserted at and replacing every character offset, cut behind it, name alone, other version, separators only, 5000 bytes), each decoded by try_from and update_from_instance".into());
     RULE
 }
 
